@@ -120,6 +120,10 @@ def initial_for(ftype, token, palette=None):
     # column between two fills is judged on the token, like the specification does
     if token == 'p' and ftype in ('Char', 'Text'):
         return '5% o\'k "q"'            # percent sign, single and double quotes
+    if token == 'p' and ftype in ('Int', 'BigInt', 'PosInt', 'FK', 'O2O', 'Decimal'):
+        return 9                         # a third value, so that the token survives a round trip
+    if token == 'p' and ftype == 'DateTime':
+        return '2021-03-04 05:06:07'
     if token == 'z':                     # a value Python regards as false: 0, False, the empty string
         if ftype in ('Char', 'Text'):
             return ''
@@ -330,7 +334,7 @@ def _expr_field(expressions, names):
 def _init_token(initial):
     if initial is None:
         return NONE
-    if isinstance(initial, str) and '%' in initial:
+    if (isinstance(initial, str) and '%' in initial) or (initial in (9, '9', '2021-03-04 05:06:07') and initial is not True):
         return 'p'
     if initial in (0, '', False) and initial is not None:
         return 'z'
